@@ -44,11 +44,18 @@ type chargingStation struct {
 	diagnosticsHandler   diagnostics.ChargingStationHandler
 	displayHandler       display.ChargingStationHandler
 	dataHandler          data.ChargingStationHandler
-	responseHandler      chan ocpp.Response
-	errorHandler         chan error
+	conclusions          chan conclusion // responses and errors on their way to the callback routine, in the order they were concluded
 	callbacks            callbackqueue.CallbackQueue
 	stopC                chan struct{}
 	errC                 chan error // external error channel
+}
+
+// conclusion is what a request ended with: the peer's response, or an error.
+// Both kinds travel over one channel: over two, their order was lost whenever the callback routine was busy,
+// and the callbacks (matched by order) received each other's conclusion.
+type conclusion struct {
+	response ocpp.Response
+	err      error
 }
 
 func (cs *chargingStation) error(err error) {
@@ -68,7 +75,7 @@ func (cs *chargingStation) Errors() <-chan error {
 // Callback invoked whenever a queued request is canceled, due to timeout.
 // By default, the callback returns a GenericError to the caller, who sent the original request.
 func (cs *chargingStation) onRequestTimeout(_ string, _ ocpp.Request, err *ocpp.Error) {
-	cs.errorHandler <- err
+	cs.conclusions <- conclusion{err: err}
 }
 
 func (cs *chargingStation) BootNotification(reason provisioning.BootReason, model string, vendor string, props ...func(request *provisioning.BootNotificationRequest)) (*provisioning.BootNotificationResponse, error) {
@@ -540,19 +547,16 @@ func (cs *chargingStation) SendRequestAsync(request ocpp.Request, callback func(
 func (cs *chargingStation) asyncCallbackHandler(stopC chan struct{}) {
 	for {
 		select {
-		case confirmation := <-cs.responseHandler:
+		case c := <-cs.conclusions:
 			// Get and invoke callback
 			if callback, ok := cs.callbacks.Dequeue("main"); ok {
-				callback(confirmation, nil)
+				callback(c.response, c.err)
+			} else if c.err != nil {
+				err := fmt.Errorf("no handler available for error %v", c.err.Error())
+				cs.error(err)
 			} else {
-				cs.error(fmt.Errorf("no callback available for incoming response %v", confirmation.GetFeatureName()))
-			}
-		case protoError := <-cs.errorHandler:
-			// Get and invoke callback
-			if callback, ok := cs.callbacks.Dequeue("main"); ok {
-				callback(nil, protoError)
-			} else {
-				cs.error(fmt.Errorf("no callback available for incoming error %w", protoError))
+				err := fmt.Errorf("no handler available for incoming response %v", c.response.GetFeatureName())
+				cs.error(err)
 			}
 		case <-stopC:
 			// Handler stopped, cleanup callbacks.
@@ -614,8 +618,7 @@ func (cs *chargingStation) sendResponse(response ocpp.Response, err error, reque
 func (cs *chargingStation) dropStaleConclusions() {
 	for {
 		select {
-		case <-cs.responseHandler:
-		case <-cs.errorHandler:
+		case <-cs.conclusions:
 		default:
 			return
 		}
